@@ -4,6 +4,7 @@ package olareg
 
 import (
 	"encoding/json"
+	"strconv"
 	"strings"
 
 	digest "github.com/opencontainers/go-digest"
@@ -17,7 +18,12 @@ import (
 
 // vhLegacyLayout rewrites repository a into the fallback-tag scheme: the referrers
 // response entry is replaced by a tag <alg>-<hex> and the convert mark is removed.
-func vhLegacyLayout(w *vhWorld) {
+func vhLegacyLayout(w *vhWorld) { vhLegacyLayoutX(w, false) }
+
+// vhLegacyLayoutX: stale = the fallback index lists the artifact without the pulled-up
+// artifactType (as an older client wrote it), so the conversion has to regenerate the
+// response instead of converting the tag in place.
+func vhLegacyLayoutX(w *vhWorld, stale bool) {
 	p := vhRoot + "/a/index.json"
 	idx := types.Index{}
 	if json.Unmarshal(vos.Bytes(p), &idx) != nil {
@@ -28,6 +34,20 @@ func vhLegacyLayout(w *vhWorld) {
 		if d.Annotations != nil && d.Annotations[types.AnnotReferrerSubject] != "" {
 			s := d.Annotations[types.AnnotReferrerSubject]
 			d.Annotations = map[string]string{types.AnnotRefName: strings.Replace(s, ":", "-", 1)}
+			if stale {
+				resp := types.Index{}
+				if json.Unmarshal(vos.Bytes(vhRoot+"/a/blobs/sha256/"+d.Digest.Encoded()), &resp) == nil {
+					for k := range resp.Manifests {
+						resp.Manifests[k].ArtifactType = ""
+					}
+					rb, _ := json.Marshal(resp)
+					// the accurate response was never written by that client
+					vos.Delete(vhRoot + "/a/blobs/sha256/" + d.Digest.Encoded())
+					d.Digest = digest.Canonical.FromBytes(rb)
+					d.Size = int64(len(rb))
+					vos.Put(vhRoot+"/a/blobs/sha256/"+d.Digest.Encoded(), rb, vclock.Last())
+				}
+			}
 		}
 		out = append(out, d)
 	}
@@ -53,8 +73,10 @@ func VH_C14_ReadOnly() {
 	})
 	vhReset()
 	vos.Restore(tree)
-	layout := vh.Choice("layout", 7)
+	layout := vh.Choice("layout", 8)
 	switch layout {
+	case 7:
+		vhLegacyLayoutX(w, true)
 	case 5:
 		// an upload directory left behind (empty) by an earlier writable server
 		vos.PutDir(vhRoot+"/a/_uploads", vclock.Last())
@@ -72,7 +94,7 @@ func VH_C14_ReadOnly() {
 	case 4:
 		vos.Delete(vhRoot + "/b/index.json")
 	}
-	vh.Tag("layout", []string{"normal", "legacy-fallback-tags", "corrupt-index", "no-oci-layout", "b-without-index", "leftover-empty-uploads-dir", "empty-repository"}[layout])
+	vh.Tag("layout", []string{"normal", "legacy-fallback-tags", "corrupt-index", "no-oci-layout", "b-without-index", "leftover-empty-uploads-dir", "empty-repository", "legacy-stale-fallback-index"}[layout])
 	var conf config.Config
 	if vh.Bool("memOverDir") {
 		conf = vhConf(config.StoreMem)
@@ -93,7 +115,9 @@ func VH_C14_ReadOnly() {
 	w2.s.store = w2.rec
 	before := vos.Snapshot(vhRoot)
 	ops := vos.Mutations()
-	steps := vh.Param("K", 1)
+	// 0..K arbitrary requests (with 0 the reads below are the first requests the fresh
+	// server sees)
+	steps := vh.Choice("steps", vh.Param("K", 1)+1)
 	for n := 0; n < steps; n++ {
 		r := w2.vhAnyRequest(vh.Param("REPOS", 3), vh.Param("METHODS", 6))
 		vh.Tag("route", r.route)
@@ -120,8 +144,10 @@ func VH_C14_ReadOnly() {
 	}
 	if (layout == 0 || layout == 1 || layout >= 5) && !mutated {
 		g := vhGetBlob(w2.s, "a", w.dLayer)
+		vh.Note("GET blob a/layer -> " + strconv.Itoa(g.Status()))
 		vh.Assert(g.Status() == 200 && vhBytesEq(g.Body, w.layer), "C14.content-not-served")
 		m := vhGetManifest(w2.s, "a", "t1")
+		vh.Note("GET manifest a/t1 -> " + strconv.Itoa(m.Status()) + " " + string(m.Body))
 		vh.Assert(m.Status() == 200 && vhBytesEq(m.Body, w.img1), "C14.content-not-served")
 		vh.Cover("C14.served")
 	}
